@@ -224,9 +224,10 @@ theorem Binomial.step_spec {cmp : K → K → Int} (hc : LawfulCmp cmp) (eqV : V
 
 theorem Binomial.merge_spec {cmp : K → K → Int} (hc : LawfulCmp cmp) (a b : Binomial K V)
     (ha : BnInv cmp a) (hb : BnInv cmp b) :
-    BnInv cmp (a.mergeWith cmp b) ∧ (a.mergeWith cmp b).abs.Perm (a.abs ++ b.abs) := by
+    BnInv cmp (a.mergeWith cmp b).1 ∧ BnInv cmp (a.mergeWith cmp b).2 ∧
+      (a.mergeWith cmp b).1.abs.Perm (a.abs ++ b.abs) ∧ (a.mergeWith cmp b).2.abs = [] := by
   obtain ⟨h1, h2⟩ := union_spec hc a.head b.head ha.ord hb.ord
-  refine ⟨⟨h2, ?_⟩, h1⟩
+  refine ⟨⟨h2, ?_⟩, ⟨OrdAll_nil cmp, by simp [Binomial.mergeWith]⟩, h1, by simp [Binomial.mergeWith, Binomial.abs]⟩
   have := h1.length_eq
   simp only [Binomial.mergeWith, ha.n, hb.n, this, List.length_append]; omega
 
@@ -238,6 +239,8 @@ def binomialRefines {cmp : K → K → Int} (hc : LawfulCmp cmp) (eqV : V → V 
   init_inv := ⟨OrdAll_nil cmp, by simp [binomialImpl, Binomial.new]⟩
   init_abs := by simp [binomialImpl, Binomial.new, Binomial.abs]
   step_ok := fun s op hs => Binomial.step_spec hc eqV s hs op
-  merge_ok := fun a b ha hb => ⟨_, rfl, (Binomial.merge_spec hc a b ha hb).1, (Binomial.merge_spec hc a b ha hb).2⟩
+  merge_ok := fun a b ha hb =>
+    have h := Binomial.merge_spec hc a b ha hb
+    ⟨_, _, rfl, h.1, h.2.1, h.2.2.1, h.2.2.2⟩
 
 end AlgoVerif.C04
